@@ -73,7 +73,8 @@ def big_udp_cases():
 
 def ur_cases():
     """UDP sinks over a socket connected to a closed port"""
-    return ["UR " + spec for spec in ("u 6 20", "u 9 300", "16 8 9", "24 10 7", "64 12 20", "d 7 200", "d 5 600", "8 6 30")]
+    return ["UR " + spec for spec in ("u 6 20", "u 9 300", "16 8 9", "24 10 7", "64 12 20", "d 7 200", "d 5 600", "8 6 30",
+                                      "64 3 25", "512 3 200", "d 9 40")]
 
 
 def gen_cases(rng, n):
@@ -306,6 +307,11 @@ def judge_ur(t, obs):
         cap = 512 if t[1] == "d" else int(t[1])
         if st[1] + st[3] != int(parts["A"]):
             bad.append(("C14", "packets_sent + packets_dropped = %d but %d sends were attempted" % (st[1] + st[3], int(parts["A"]))))
+        if "S2" in parts:
+            st2 = [int(x) for x in parts["S2"].split(".")]
+            if st2[1] + st2[3] != int(parts["A2"]):
+                bad.append(("C14", "after the explicit flushes (%s): packets_sent + packets_dropped = %d but %d sends were attempted" % (
+                    parts["F"], st2[1] + st2[3], int(parts["A2"]))))
         seen = []
         for d in dg:
             if d in ms and len(d) + 1 > cap:
